@@ -25,7 +25,7 @@ var messageSpecOf = map[string]string{
 }
 
 func c06(p *core.Prog, r *core.Report) {
-	r.Explain = "Decides: (R1) the sequence grammar of buffer operations of every message's write and read method (frame header, init, call req/res, continuations, error, cancel, ping, span), extracted from the syntax tree with callees inlined, equals the layout written from the protocol text - field widths, string-length widths, repetition counts and, for the span and header, field order; every type implementing the message interface is covered; (R2) the fragment envelope flags:1 message csumtype:1 csum on both sides; (R3) Frame.write stamps id, type and SetPayloadSize(BytesWritten()), and SetPayloadSize/PayloadSize use the same constant; (R4) every read buffer built on a received frame wraps SizedPayload(), and every direct Payload[...] read is covered by evidence that the declared size reaches it (a size guard, a carrier built only by a successful bounded parse, or call sites dominated by a successful parse of that frame); (R5) the length-prefixed string writers flag strings that do not fit their prefix, and every message.write / Frame.write result is checked by its caller; relay offset constants equal the sums of the specified widths. The 16 header bytes that leave the process come from FrameHeader.write on every path of WriteOut and nothing else writes a frame's raw buffer (census, reviewed table). The whole pooled payload buffer is never wrapped by a read buffer; (R6) every decode loop terminates on truncated input (shared with C03-R4). Statements after an `if … continue/break` inside a repetition are conditional for the layout comparison (a counted element may not be skipped); message decoders do not report success after a read without consulting the buffer's error; exact length-limit comparisons are accepted, off-by-one ones reported with the limit. The code points written verbatim into frames equal the specification's; the init res is sent under the id read from the init req; a constant-index read of a frame payload needs a guard that implies declared size > index. Every unexported field of the root package that is read is also assigned somewhere (reviewed exceptions listed in the checker); ChecksumSize includes farmhash."
+	r.Explain = "Decides: (R1) the sequence grammar of buffer operations of every message's write and read method (frame header, init, call req/res, continuations, error, cancel, ping, span), extracted from the syntax tree with callees inlined, equals the layout written from the protocol text - field widths, string-length widths, repetition counts and, for the span and header, field order; every type implementing the message interface is covered; (R2) the fragment envelope flags:1 message csumtype:1 csum on both sides; (R3) Frame.write stamps id, type and SetPayloadSize(BytesWritten()), and SetPayloadSize/PayloadSize use the same constant; (R4) every read buffer built on a received frame wraps SizedPayload(), and every direct Payload[...] read is covered by evidence that the declared size reaches it (a size guard, a carrier built only by a successful bounded parse, or call sites dominated by a successful parse of that frame); (R5) the length-prefixed string writers flag strings that do not fit their prefix, and every message.write / Frame.write result is checked by its caller; relay offset constants equal the sums of the specified widths. The 16 header bytes that leave the process come from FrameHeader.write on every path of WriteOut and nothing else writes a frame's raw buffer (census, reviewed table). The whole pooled payload buffer is never wrapped by a read buffer; (R6) every decode loop terminates on truncated input (shared with C03-R4). Statements after an `if … continue/break` inside a repetition are conditional for the layout comparison (a counted element may not be skipped); message decoders do not report success after a read without consulting the buffer's error; exact length-limit comparisons are accepted, off-by-one ones reported with the limit. The code points written verbatim into frames equal the specification's; the init res is sent under the id read from the init req; a constant-index read of a frame payload needs a guard that implies declared size > index. Every unexported field of the root package that is read is also assigned somewhere (reviewed exceptions listed in the checker); ChecksumSize includes farmhash. The dialling side accepts an init res only under the id of its init req; no read buffer is created directly over the Payload field."
 	r.NotDecided = "byte-for-byte agreement with an external implementation for all field values; ttl/millisecond rounding; behaviour of the varint and JSON encoders."
 	r.Rule("C06-R1", "E5 layout", 18, "message writer = spec and reader = spec; all message types covered")
 	r.Rule("C06-R2", "E5 layout", 2, "fragment envelope on both sides")
